@@ -60,7 +60,11 @@ Proof.
 Qed.
 
 Lemma sniff_unit_in ut s u : sniff_unit ut s = Some u -> In u (ut_units ut).
-Proof. unfold sniff_unit. apply find_by_alias_in. Qed.
+Proof.
+  unfold sniff_unit. destruct (find _ (ut_units ut)) as [w|] eqn:E.
+  - intros H. inversion H; subst. apply find_some in E. exact (proj1 E).
+  - apply find_by_alias_in.
+Qed.
 
 Lemma table_ok_unit uts ut u : table_ok uts = true -> In ut uts -> In u (ut_units ut) -> (0 < u_factor u)%Q.
 Proof.
